@@ -96,6 +96,12 @@ def atom_samples(enc, built, drv, sampler, outs_check=None, count=48):
                 if form.eval(ae) != sum(v << (bits * i) for i, v in enumerate(vals)):
                     raise MachineryError("integer encoder value mismatch for %s" % drv)
         envs.append(ae)
+    if envs:
+        try:
+            enc.validate_on(envs[0])
+            enc.validate_on(envs[-1])
+        except AssertionError as e:
+            raise MachineryError("encoder validation failed for %s: %s" % (drv, e))
     return envs
 
 
